@@ -95,6 +95,9 @@ def gen_opts(rng):
         o['soe'] = rng.choice([0, 1, None, '', 'no', 0.0, 2.5, 7])
     # how the factory is called: some of the leading arguments POSITIONALLY, in the documented order (9..11 reach
     # set_on_exception / timeout / reissue_time, 12 / 13 hashalg / salt)
+    # a custom serializer= (documented option): JSON wire format, but strict about the container types it is handed
+    if rng.random() < 0.15:
+        o['serializer'] = rng.choice(['strict', 'strict', 'pickle'])
     if rng.random() < 0.3:
         o['npos'] = rng.choice([2, 3, 8, 9, 9, 10, 10, 11, 11, 11, 12, 13])
     if rng.random() < 0.3:
@@ -214,6 +217,11 @@ def gen_chain(rng):
         if rng.random() < 0.2:       # other response callbacks of the application, registered before / after
             reqs[-1]['cbs'] = [rng.choice([0, 1, 2]), rng.choice([0, 1, 3])]
         t = tt
+    if opts.get('serializer') == 'pickle':
+        # the legacy serializer is judged against the JSON twin: sources that do not depend on the cookie text
+        for r in reqs:
+            if r['src']['kind'] not in ('none', 'last', 'garbage', 'stale'):
+                r['src'] = {'kind': 'last'} if reqs.index(r) else {'kind': 'none'}
     case = {'opts': opts, 'reqs': reqs}
     if rng.random() < 0.25:
         # through a real Router (request.session, exception view, Set-Cookie header); the factory configured through
@@ -228,6 +236,8 @@ def gen_oversize(rng):
     from harness.c10 import prop
     opts = gen_opts(rng)
     opts.pop('defaults', None)
+    if opts.get('serializer') == 'pickle':
+        del opts['serializer']
     opts.setdefault('hashalg', 'sha512')
     limit = prop.SPEC_LIMIT
     ds = hashlib.new(opts['hashalg']).digest_size
@@ -284,6 +294,11 @@ def valid(case):
         for k in ('timeout', 'reissue', 'max_age', 'soe'):
             if k in o and not _okv(o[k]):
                 return False
+        if o.get('serializer') == 'pickle' and any(r['src'].get('kind') not in ('none', 'last', 'garbage', 'stale')
+                                                   for r in case['reqs']):
+            return False
+        if o.get('serializer') not in (None, 'strict', 'pickle') or (o.get('defaults') and 'serializer' in o):
+            return False
         if 'npos' in o and not (isinstance(o['npos'], int) and not isinstance(o['npos'], bool) and 1 <= o['npos'] <= 13):
             return False
         if not case['reqs']:
